@@ -246,8 +246,11 @@ def Wr.d2 (pi : α) (dF : List α → Nat → α) (d2F : List α → Nat → Nat
   | some i, some tp => .ok (d2F f.vals i i * sq (tp.d1 pi) + dF f.vals i * tp.d2 pi)
   | _, _ => .error .notfound
 
-/-- `getSecondOrderDerivative(variable1, variable2)` (h:215-220) -/
-def Wr.d2x (pi : α) (d2F : List α → Nat → Nat → α) (f : Fn α) (w : Wr α) (n m : Nat) : Except Exc α :=
+/-- `getSecondOrderDerivative(variable1, variable2)` (h:215-222): the same name twice is the
+one-argument overload (`fix:` "getSecondOrderDerivative(v, v)" of findings/C11.json) -/
+def Wr.d2x (pi : α) (dF : List α → Nat → α) (d2F : List α → Nat → Nat → α) (f : Fn α) (w : Wr α) (n m : Nat) :
+    Except Exc α :=
+  if n = m then w.d2 pi dF d2F f n else
   match f.indexOf n, f.indexOf m, findTP n w.params, findTP m w.params with
   | some i, some j, some tn, some tm => .ok (d2F f.vals i j * tn.d1 pi * tm.d1 pi)
   | _, _, _, _ => .error .notfound
